@@ -142,11 +142,12 @@ def _factory(params, env=None):
     return fn
 
 
-HARNESSES = {"restart": _factory}
+from props._cold import cold_factory  # noqa: E402
+HARNESSES = {"restart": _factory, "cold-stop": cold_factory}
 
 
 def replay(harness, params, model):
-    return std_replay(_factory, harness, params, model)
+    return std_replay(HARNESSES[harness], harness, params, model)
 
 
 def signature(harness, params, rec):
@@ -164,6 +165,9 @@ def jobs(tier):
     q = tier == "quick"
     out = []
     for f in (("oid", "path") if q else ("oid", "path", "mixed", "oid-ci")):
+        # first start over accounts that already hold content: a stop request inside the start-up walk, then a restart
+        out.append({"harness": "cold-stop", "params": {"flavour": f, "mode": "stop", "pre": 1 if q else 2, "post": 1 if q else 2, "maxobj": 5},
+                    "label": "%s/cold-start/stop-inside-walk" % f})
         for v in VARIANTS:
             for side in (0, 1):
                 for op in OPS:
